@@ -215,10 +215,36 @@ def check(chk, fx, rule, name, optional=False):
     expected = {k: (v, g["contract"]) for k, v in ref.items()}
     before = len(chk.violations)
     PS.compare(chk, rule, f, f.body, conds, nodes, expected, shorten=lambda s: s[:160])
-    if len(chk.violations) == before:
-        # compare() records one obligation per event; summarise them as one line in the notes
-        pass
+    if len(chk.violations) > before:
+        # a difference is a verdict only when the function is still written in the terms of the reference: the same
+        # loops, and conditions over (some of) the same atoms. A function rewritten with another loop structure or in
+        # another vocabulary (p[i] for *p, a bounded loop for an unrolled sequence) is an unknown shape
+        why = _unknown_shape(f, name, ref, conds)
+        if why:
+            withdrawn = chk.violations[before:]
+            del chk.violations[before:]
+            for v in withdrawn:
+                v["verdict"] = "not-analysed"
+            chk.defer_incomplete("%s: %s is written in another shape than its reference summary (%s): %d difference(s) "
+                                 "not judged" % (rule, f.o["n"], why, len(withdrawn)))
     return f
+
+
+def loop_count(f):
+    return sum(1 for n in walk(f.body) if n.get("k") in ("ForStmt", "WhileStmt", "DoStmt", "CXXForRangeStmt"))
+
+
+def _unknown_shape(f, name, ref, conds):
+    lp = os.path.join(GOLDEN_DIR, "loops.json")
+    if os.path.exists(lp):
+        want = json.load(open(lp)).get(name)
+        if want is not None and loop_count(f) != want:
+            return "%d loop(s), the reference has %d" % (loop_count(f), want)
+    atoms = lambda cs: {a for d in cs.values() for conj in d for a, _ in conj}
+    ra, ca = atoms(ref), atoms(conds)
+    if ra and ca and not (ra & ca):
+        return "no condition of the reference occurs in the code"
+    return None
 
 
 def freeze(fx, name, q, contract, nparams=None, param0_contains=None, enclosing=None, unroll=1, ptypes=None):
